@@ -1,8 +1,10 @@
 package checks
 
 import (
+	"bytes"
 	"crypto/x509"
 	"encoding/binary"
+	"encoding/json"
 	"fmt"
 	"math/big"
 	"os"
@@ -58,8 +60,8 @@ func runC11(r *mc.Run) {
 		tm := c.Choose("times", 3)
 		pool := c.Choose("pool", 3)
 		li := c.Free("level", 3)
-		id := "honest/" + c.ID()
-		if !r.Want(id) {
+		// (further dimensions are chosen below; the final id is taken after the last of them)
+		if id0 := "honest/" + c.ID(); r.ReplayID != "" && id0 != "honest/default" && !strings.HasPrefix(r.ReplayID, id0) {
 			return
 		}
 		w := world.Honest("T")
@@ -210,6 +212,32 @@ func runC11(r *mc.Run) {
 		w.PckCrl = world.MakeCRL(world.CRLSpec{Issuer: w.PKI.Inter, Signer: w.PKI.InterKey, Revoked: pckRev})
 		w.RootCrl = world.MakeCRL(world.CRLSpec{Issuer: w.PKI.Root, Signer: w.PKI.RootKey, Revoked: rootRev})
 		w.Finish()
+		// members the library's structures do not declare (Intel adds members to these documents over time):
+		// at the top level, inside every TCB level, inside every component, inside the TDX module / identities
+		if je := c.Choose("json-extra-members", 5); je != 0 {
+			edit := func(raw []byte) []byte {
+				switch je {
+				case 1:
+					return append(append([]byte{}, raw[:len(raw)-1]...), []byte(`,"futureMember":{"a":[1,2,{"b":null}]},"anotherOne":"x"}`)...)
+				case 2:
+					return bytes.ReplaceAll(raw, []byte(`{"tcb":`), []byte(`{"futureLevelMember":[],"tcb":`))
+				case 3:
+					return bytes.ReplaceAll(raw, []byte(`{"svn":`), []byte(`{"futureComponentMember":"y","svn":`))
+				case 4:
+					out := bytes.ReplaceAll(raw, []byte(`"mrsigner":`), []byte(`"futureIdentityMember":true,"mrsigner":`))
+					return bytes.ReplaceAll(out, []byte(`"isvsvn":`), []byte(`"futureTcbMember":0,"isvsvn":`))
+				}
+				return raw
+			}
+			w.TcbRaw, w.QeRaw = edit(w.TcbRaw), edit(w.QeRaw)
+			if !json.Valid(w.TcbRaw) || !json.Valid(w.QeRaw) {
+				r.HarnessError("C11: edited collateral is not valid JSON")
+				return
+			}
+			w.TcbBody = world.SignedBody("tcbInfo", w.TcbRaw, w.PKI.TcbKey)
+			w.QeBody = world.SignedBody("enclaveIdentity", w.QeRaw, w.PKI.TcbKey)
+			w.BuildGetter()
+		}
 		switch tm {
 		case 1: // just after the latest notBefore / issue date
 			w.Now = world.TimeSetAt(world.T0.AddDate(0, 0, -5).Add(1))
@@ -223,6 +251,10 @@ func runC11(r *mc.Run) {
 			w.Roots = world.Pool(w.PKI.Root, U.Root, world.CachedPKI("F").Root)
 		}
 		level := []int{world.L0, world.L1, world.L2}[li]
+		id := "honest/" + c.ID()
+		if !r.Want(id) {
+			return
+		}
 		// driver self-check: the reference agrees that this world is honest
 		raw := w.Raw()
 		if rp, perr := ref.ParseQuote(raw); perr != nil || !ref.LinksOf(rp).All() {
@@ -304,6 +336,8 @@ func c11SignatureShapes(r *mc.Run) {
 		{"01..7f", func(v []byte) bool { return v[0] > 0 && v[0] < 0x80 }},
 		{"7f,ff", func(v []byte) bool { return v[0] == 0x7f && v[1] >= 0x80 }},
 		{"80,00..", func(v []byte) bool { return v[0] == 0x80 && v[1] < 0x80 }},
+		{"ends-00", func(v []byte) bool { return v[31] == 0 && v[0] != 0 }},
+		{"ends-ff", func(v []byte) bool { return v[31] == 0xff }},
 	}
 	if r.Thorough() {
 		shapes = append(shapes, shape{"00,00", func(v []byte) bool { return v[0] == 0 && v[1] == 0 }},
